@@ -493,6 +493,10 @@ func newSchemaType(spec *specification.Schema, components Componenter, cfg Confi
 					Embedded:           true,
 					RenderToBaseTypeFn: schema.RenderToBaseType,
 				})
+			} else if st, ok := schema.Type.(StructureType); ok {
+				// the member was built by NewSchema above: building it again would
+				// register the types of its nested inline schemas a second time
+				s.Fields = append(s.Fields, st.Fields...)
 			} else if schema.Kind() == SchemaKindObject {
 				st, ims, err := NewStructureType(a.Value(), components, cfg)
 				if err != nil {
